@@ -134,10 +134,11 @@ func TestC12(t *testing.T) {
 func TestC13(t *testing.T) {
 	o := poolOpts
 	o.Bursts = false
-	o.Weights = map[string]int{"exec": 10, "xexec": 18, "xtick": 12, "tick": 6, "hb": 4, "reqbatch": 14, "relay": 10, "send": 36, "xlag": 6}
+	o.Weights = map[string]int{"exec": 10, "xexec": 18, "xtick": 12, "tick": 6, "hb": 4, "reqbatch": 14, "relay": 10, "send": 36, "xlag": 6, "byz": 14, "deposit": 8}
 	o.EthTimeout = []uint64{60000, 150000}
 	o.Denoms = 3
 	o.BlockTimes = true
+	o.ByzHeights = true
 	(&pbt.Check{
 		ID:   "C13",
 		Rule: "batch histories on ethereum/bsc/minter with several tokens, generated external clock, executions in any admissible order, observed heights around each timeout; non-trivial = an execution or a BeginBlock processed while >=3 batches of >=2 tokens were pending and a batch was withdrawn or executed in the history; distinct = distinct case JSON",
